@@ -55,3 +55,11 @@ package values
 //@   ensures {C17} bool-back: typedValue.Type == configapi.ValueType_BOOL ==> err == nil && g != nil && isType(g.Value, "*gnmi.TypedValue_BoolVal") && asType(g.Value, "*gnmi.TypedValue_BoolVal").BoolVal == tvBool(typedValue)
 //@   ensures {C17} bytes-back: typedValue.Type == configapi.ValueType_BYTES ==> err == nil && g != nil && isType(g.Value, "*gnmi.TypedValue_BytesVal") && bytesID(asType(g.Value, "*gnmi.TypedValue_BytesVal").BytesVal) == tvBytes(typedValue)
 //@   ensures {C17} decimal-back: typedValue.Type == configapi.ValueType_DECIMAL ==> err == nil && g != nil && isType(g.Value, "*gnmi.TypedValue_DecimalVal") && asType(g.Value, "*gnmi.TypedValue_DecimalVal").DecimalVal != nil && asType(g.Value, "*gnmi.TypedValue_DecimalVal").DecimalVal.Digits == tvDigits(typedValue) && asType(g.Value, "*gnmi.TypedValue_DecimalVal").DecimalVal.Precision == tvPrecision(typedValue)
+
+//@ func NewChangeValue(path, value, delete) (cv, err)
+//@   props C12
+//@   safe
+//@   modifies nothing
+//@   ensures err == nil ==> cv != nil
+//@   ensures err != nil ==> cv == nil
+//@   fresh cv
